@@ -352,6 +352,28 @@ pub fn c19(tier: Tier) -> i32 {
         let s = bfs(&m, depth, Duration::from_secs(if tier == Tier::Quick { 15 } else { 150 }), &run);
         all.push((m.name(), s));
     }
+    // the two indexes as the live tower maintains them (engine T): after every step of every history the
+    // Watcher's locator cache and the Responder's transaction index are compared with the last 6 / 100
+    // blocks delivered to the listeners (oracle `recent-blocks:*` of the reference model)
+    {
+        use crate::tmodel::{Alphabet, TowerModel};
+        use crate::sim::Replacement;
+        let cfg = crate::tower::TowerCfg { slots: 3, duration: 400, grace: 6, txindex: false };
+        let mut a = Alphabet::basic();
+        a.max_adds = 1;
+        a.mine_dispute_and_penalty = true;
+        a.split_poll = true;
+        a.reorgs = vec![(1, Replacement::Same), (2, Replacement::Same), (1, Replacement::Unconfirm), (2, Replacement::Delay)];
+        a.restart = true;
+        a.bulk_advances = vec![7];
+        a.max_deviations = if tier == Tier::Quick { 2 } else { 3 };
+        let d = if tier == Tier::Quick { 4 } else { 6 };
+        for (label, seed) in [("S0", vec![]), ("S4", crate::checks_t::seed("S4"))] {
+            let m = TowerModel { label: format!("C19/tower/{label}"), cfg, seed, alphabet: a.clone(), props: vec!["C19"], probe: false, forgery: None };
+            let s = bfs(&m, d, Duration::from_secs(if tier == Tier::Quick { 12 } else { 200 }), &run);
+            all.push((m.name(), s));
+        }
+    }
     merge_stats(&run, &all);
     let mut fam = (0, 0);
     for n in [6usize, 100] {
@@ -362,7 +384,7 @@ pub fn c19(tier: Tier) -> i32 {
     run.set("production_size_scripts", json!(fam.0));
     run.set("production_size_steps_checked", json!(fam.1));
     run.set("traces_validated_against_impl", json!(0));
-    run.set("rule", json!("BFS over connect(subset of a 3-transaction universe not in a live block)/disconnect-last on the real TxIndex<Txid,BlockHash> and TxIndex<Locator,Transaction> with N in {1,2,3}, deduplicated on (held blocks with their contents and heights, tip field); after every operation every key and block ever seen is looked up and compared with a VecDeque reference; plus deterministic reorg families at N = 6 and 100"));
+    run.set("rule", json!("BFS over connect(subset of a 3-transaction universe not in a live block)/disconnect-last on the real TxIndex<Txid,BlockHash> and TxIndex<Locator,Transaction> with N in {1,2,3}, deduplicated on (held blocks with their contents and heights, tip field); after every operation every key and block ever seen is looked up and compared with a VecDeque reference; plus deterministic reorg families at N = 6 and 100; plus engine T: BFS over the live tower (blocks, split polls, reorgs of depth 1-2 with 3 kinds of replacement, 7-block advance, restart, one appointment) from seeds S0 and S4 where after every step the Watcher's locator cache and the Responder's transaction index must hold exactly the last 6 / 100 delivered blocks with exactly their transactions and the right height"));
     run.assume("the same txid never appears in two live blocks (impossible on a valid chain)");
     run.finish()
 }
